@@ -392,6 +392,10 @@ class ExprMixin:
                 for _ in range(cy):
                     r = mk(r.t * x)
                 return r
+            if cx in (2, 256) and not real:
+                e = y if cx == 2 else 8 * y
+                self.oblige(st, "safety", node, z3.And(e >= 0, e <= 64), "power of two modelled for exponents 0..64")
+                return VInt(pow2_table(e))
             self.unsupported(node, "** with symbolic exponent")
         if isinstance(op, ast.LShift):
             cy = const_int(b)
@@ -765,6 +769,7 @@ class ExprMixin:
                 self.bind_target(gen.target, item, s2)
                 outs.append(self.quant_body(gens, elt, s2, universal, node, gen))
             return zand(*outs) if universal else zor(*outs)
+        _, _, _, bounds, _ = (None, None, None, None, None)
         s2 = st.copy()
         binder(s2)
         self.bound_ranges.append(rng)
@@ -804,6 +809,16 @@ class ExprMixin:
             return self.mk_list(items)
         if bounds is None:
             self.unsupported(node, "list comprehension over a set")
+        clo, chi = const_int(VInt(z3.simplify(bounds[0]))), const_int(VInt(z3.simplify(bounds[1])))
+        if clo is not None and chi is not None and chi - clo <= 32:
+            items = []
+            for k in range(clo, chi):
+                s2 = st.copy()
+                binder(s2)
+                for nm, vv in list(s2.vars.items()):
+                    pass
+                items.append(self.subst_val(self.ev_with_bound(node.elt, s2, i, k), i, k))
+            return self.mk_list(items) if items else self.mk_list([])
         s2 = st.copy()
         binder(s2)
         s2.guard = s2.guard + [rng]
@@ -815,6 +830,27 @@ class ExprMixin:
         return VList(elt.ty, z3.simplify(n), z3.Lambda([j], body))
 
     ev_GeneratorExp = ev_ListComp
+
+    def ev_with_bound(self, elt, s2, i, k):
+        """evaluate elt with the z3 bound variable i replaced by the constant k in every variable of the state"""
+        s3 = s2.copy()
+        for nm, vv in list(s3.vars.items()):
+            try:
+                s3.vars[nm] = self.subst_val(vv, i, k)
+            except Unsupported:
+                pass
+        return self.ev(elt, s3)
+
+    def subst_val(self, v, i, k):
+        if isinstance(v, (VFunc, VNone)):
+            return v
+        if isinstance(v, VDict) and getattr(v, "empty_literal", False):
+            return v
+        if isinstance(v, (VSet, VList)) and getattr(v, "empty_literal", False):
+            return v
+        if isinstance(v, VSet) and hasattr(v, "lit_items"):
+            return v
+        return unpack(v.ty, z3.simplify(z3.substitute(pack(v), (i, z3.IntVal(k)))))
 
     def bind_target(self, target, val, st):
         if isinstance(target, ast.Name):
